@@ -196,6 +196,10 @@ func (f *fnState) call(i *ssa.Call) {
 			}
 		}
 		if fc == nil {
+			if f.canInline(callee) {
+				f.vals[i] = f.inlineCall(callee, args, i.Type())
+				return
+			}
 			f.vals[i] = f.unknownCall(key, i.Type())
 			return
 		}
@@ -383,8 +387,20 @@ func (f *fnState) modItem(e spec.Expr, ctx *specCtx, get func(string) *modSet) {
 			}
 			return
 		case "ghost":
+			// ghost(name): all of it; ghost("name", p): the entry of object p
+			if nm, ok := x.Args[0].(*spec.StrLit); ok && len(x.Args) == 2 {
+				o := f.specVal(x.Args[1], ctx)
+				r := fmt.Sprintf("(l-ref %s)", f.locTerm(o))
+				m := get("G$u$" + nm.V)
+				m.preds = append(m.preds, func(k string) string { return eq(k, r) })
+				return
+			}
 			for _, a := range x.Args {
-				get("G$" + a.String()).any = true
+				if nm, ok := a.(*spec.StrLit); ok {
+					get("G$u$" + nm.V).any = true
+				} else {
+					get("G$" + a.String()).any = true
+				}
 			}
 			return
 		case "global":
@@ -853,4 +869,50 @@ func (f *fnState) closure(m, sort, nextref string) {
 		return
 	}
 	f.assume(fmt.Sprintf("(forall ((hk Loc)) (! (< %s %s) :pattern ((select %s hk))))", fmt.Sprintf(refOf, m), nextref, m))
+}
+
+// canInline: small straight-line callees without a contract are executed in place.
+func (f *fnState) canInline(callee *ssa.Function) bool {
+	if f.inlining >= 2 || len(callee.Blocks) != 1 || callee.Pkg == nil || f.fn.Pkg == nil || callee.Pkg != f.fn.Pkg {
+		return false
+	}
+	for _, ins := range callee.Blocks[0].Instrs {
+		switch x := ins.(type) {
+		case *ssa.Call:
+			if _, ok := x.Call.Value.(*ssa.Builtin); !ok {
+				return false
+			}
+		case *ssa.Defer, *ssa.Go, *ssa.Panic, *ssa.MakeClosure:
+			return false
+		}
+	}
+	return true
+}
+
+func (f *fnState) inlineCall(callee *ssa.Function, args []SV, rt types.Type) SV {
+	f.note("straight-line callees without a contract are executed in place: " + callee.String())
+	f.classifyAllocsOf(callee)
+	for k, p := range callee.Params {
+		if k < len(args) {
+			f.vals[p] = args[k]
+		}
+	}
+	f.inlining++
+	saved := f.inlineRet
+	f.inlineRet = nil
+	pos := f.curPos
+	for _, ins := range callee.Blocks[0].Instrs {
+		f.instr(ins)
+	}
+	f.curPos = pos
+	f.inlining--
+	res := f.inlineRet
+	f.inlineRet = saved
+	if res != nil {
+		return *res
+	}
+	if t, ok := rt.(*types.Tuple); ok && t.Len() == 0 {
+		return SV{Typ: rt}
+	}
+	return f.freshOf("inl", rt)
 }
